@@ -132,6 +132,8 @@ func Families() []*spec.Grammar {
 		// rings in the includes relation entered from several contexts
 		"S: o1 A c1 | o2 B c2 | o3 C c3 | o4 D c4; A: a B; B: b C; C: c D; D: d A | e",
 		"S: o1 A c1 | o2 B c2 | o3 C c3; A: a B N; B: b C N; C: c A | e; N: | n",
+		// D12 witness: follow sets of a strongly connected component shared one slice and were appended to in place
+		"A: ; L: A A | g | A L L f z d A A L e L d | q e z q g g d c c f f; A: L",
 		// cyclic
 		"S: A; A: B; B: A | x",
 		"U: U | u",
@@ -1002,4 +1004,50 @@ func Big(r *rand.Rand) *spec.Grammar {
 	g.Start = prog
 	g.DefaultActs()
 	return g
+}
+
+// LongRules produces grammars with 13-22 rules over a very small alphabet in
+// which the first rules are 10-13 symbols long and the others are short and
+// begin with symbols that also occur inside the long rules: states then hold
+// items of many rules at many dot positions, including two-digit rule numbers
+// and two-digit dots.
+func LongRules(r *rand.Rand) *spec.Grammar {
+	for {
+		g := &spec.Grammar{}
+		nT := 2 + r.Intn(3)
+		nN := 2 + r.Intn(4)
+		for i := 0; i < nT; i++ {
+			g.Tokens = append(g.Tokens, spec.Token{Name: fmt.Sprintf("T%c", 'a'+i), Decl: "token", Tag: "s"})
+		}
+		for i := 0; i < nN; i++ {
+			g.NTs = append(g.NTs, spec.NT{Name: fmt.Sprintf("N%c", 'A'+i), Tag: "s"})
+		}
+		sym := func() spec.Sym {
+			if r.Intn(3) == 0 {
+				return spec.Sym{I: r.Intn(nN)}
+			}
+			return spec.Sym{T: true, I: r.Intn(nT)}
+		}
+		nLong := 1 + r.Intn(2)
+		for l := 0; l < nLong; l++ {
+			ru := spec.Rule{Lhs: 0, Prec: -1}
+			for j := 0; j < 10+r.Intn(4); j++ {
+				ru.Rhs = append(ru.Rhs, sym())
+			}
+			g.Rules = append(g.Rules, ru)
+		}
+		for i := 0; i < nN; i++ {
+			for a := 0; a < 3+r.Intn(3); a++ {
+				ru := spec.Rule{Lhs: i, Prec: -1}
+				for j := 0; j < 1+r.Intn(3); j++ {
+					ru.Rhs = append(ru.Rhs, sym())
+				}
+				g.Rules = append(g.Rules, ru)
+			}
+		}
+		g.DefaultActs()
+		if Usable(g) {
+			return g
+		}
+	}
 }
